@@ -44,13 +44,13 @@ Fixpoint finalize (v : value) : fvalue :=
   end.
 End F.
 
-Definition parse_model (lf : bool) (g funs : list (list nat * expr)) (named : bool) (ignored : option nat) (t : list nat)
+Definition parse_model (lf : bool) (g funs : list (list nat * expr)) (ignored : option nat) (t : list nat)
            (rx : nat -> nat -> option nat) (fuel : nat) (entry : nat) (p : nat) (fullparse : bool) : outcome :=
   match nth_error g entry with
   | None => Crash 3
   | Some (_ :: _, _) => Crash 4
   | Some ([], b) =>
-    match exec lf g funs named ignored t rx fuel b (fresh p) with
+    match exec lf g funs ignored t rx fuel b (fresh p) with
     | OutOfFuel => Fuel
     | Stuck _ => Crash 2
     | Done s =>
